@@ -683,7 +683,8 @@ class Progress(JupyterMixin, RenderHook):
                     if isinstance(stream, FileProxy):
                         stream.flush()
                 self.refresh()
-                if self.console.is_terminal:
+                if self.console.is_terminal and not self.disable:
+                    # (a disabled display has drawn no frame that a line feed would have to follow)
                     self.console.line()
             finally:
                 self.console.show_cursor(True)
@@ -692,7 +693,7 @@ class Progress(JupyterMixin, RenderHook):
         if self._refresh_thread is not None:
             self._refresh_thread.join()
             self._refresh_thread = None
-        if self.transient:
+        if self.transient and not self.disable:
             self.console.control(self._live_render.restore_cursor())
         # nothing of this display may be erased by a later start()
         self._live_render._shape = None
